@@ -26,59 +26,6 @@ let split_on c s = if s = "" then [] else String.split_on_char c s
 
 exception Model_panic
 
-(* ---- fragments ------------------------------------------------------------------------ *)
-
-let show_raw (o : (bytes option) outcome option) : string =
-  match o with
-  | None -> "t"
-  | Some (Ok None) -> "-"
-  | Some (Ok (Some b)) -> "E" ^ hex b
-  | Some (Err _) -> "ERR"
-  | Some (Panic _) -> raise Model_panic
-
-let frag_seq ovf args =
-  match args with
-  | kind :: tmo :: rest ->
-      let ops = match rest with [] -> [] | o :: _ -> split_on ',' o in
-      let ops =
-        List.map
-          (fun o -> if o = "t" then FTimer else FRecv (unhex (String.sub o 1 (String.length o - 1))))
-          ops
-      in
-      let timeout = if tmo = "z" then N0 else n_of_int 1000000000 in
-      if kind = "raw" then
-        let outs = frag_run (fun b -> Some b) ovf timeout N0 { fs_queue = []; fs_timer = [] } ops in
-        String.concat "," (List.map show_raw outs)
-      else "UNSUPPORTED"
-  | _ -> "BAD-ARGS"
-
-let frag_make ovf args =
-  match args with
-  | [ mtu; next_id; payload ] -> (
-      match make_fragments ovf (n_of_int (int_of_string mtu)) (n_of_int (int_of_string next_id)) (unhex payload) with
-      | Ok (nid, frs) -> Printf.sprintf "%d %s" (int_of_n nid) (String.concat "," (List.map hex frs))
-      | Err _ -> "ERR"
-      | Panic _ -> raise Model_panic)
-  | _ -> "BAD-ARGS"
-
-let frag_rt ovf args =
-  match args with
-  | [ mtu; next_id; payload; perm ] -> (
-      match make_fragments ovf (n_of_int (int_of_string mtu)) (n_of_int (int_of_string next_id)) (unhex payload) with
-      | Ok (_, frs) ->
-          let arr = Array.of_list frs in
-          let k = Array.length arr in
-          let ops =
-            List.map (fun ix -> FRecv arr.(int_of_string ix mod (max k 1))) (split_on ',' perm)
-          in
-          let outs =
-            frag_run (fun b -> Some b) ovf (n_of_int 1000000000) N0 { fs_queue = []; fs_timer = [] } ops
-          in
-          Printf.sprintf "%d %s" k (String.concat "," (List.map show_raw outs))
-      | Err _ -> "ERR"
-      | Panic _ -> raise Model_panic)
-  | _ -> "BAD-ARGS"
-
 (* ---- codecs --------------------------------------------------------------------------- *)
 
 let chunks_of s = if s = "-" || s = "" then [] else List.map unhex (split_on ',' s)
@@ -283,20 +230,90 @@ let target_print args =
   | _ -> "BAD-ARGS"
 
 let connect_write args =
+  let go t cs udp =
+    match parse_target t with
+    | TV6 _ -> "OPAQUE"
+    | t -> (
+        match (if udp then x_write_connect_udp t else x_write_connect t) with
+        | Err _ -> "ERR W=-"
+        | Panic _ -> raise Model_panic
+        | Ok w -> (
+            let (r, _), _ = x_connect_reply udp (chunks_of cs) in
+            match r with
+            | ROk _ -> "OK W=" ^ hex w
+            | RPanic _ -> raise Model_panic
+            | _ -> "ERR W=" ^ hex w))
+  in
   match args with
-  | [ t; cs ] -> (
-      match parse_target t with
-      | TV6 _ -> "OPAQUE"
-      | t -> (
-          match x_write_connect t with
-          | Err _ -> "ERR W=-"
-          | Panic _ -> raise Model_panic
-          | Ok w -> (
-              let (r, _), _ = x_http_resp_read (chunks_of cs) in
-              match r with
-              | ROk p when int_of_n p.hp_code = 200 -> "OK W=" ^ hex w
-              | RPanic _ -> raise Model_panic
-              | _ -> "ERR W=" ^ hex w)))
+  | [ t; cs ] -> go t cs false
+  | [ t; cs; "udp" ] -> go t cs true
+  | _ -> "BAD-ARGS"
+
+(* ---- fragments ------------------------------------------------------------------------ *)
+
+let show_raw (o : (bytes option) outcome option) : string =
+  match o with
+  | None -> "t"
+  | Some (Ok None) -> "-"
+  | Some (Ok (Some b)) -> "E" ^ hex b
+  | Some (Err _) -> "ERR"
+  | Some (Panic _) -> raise Model_panic
+
+let frag_seq ovf args =
+  match args with
+  | kind :: tmo :: rest ->
+      let ops = match rest with [] -> [] | o :: _ -> split_on ',' o in
+      let ops =
+        List.map
+          (fun o -> if o = "t" then FTimer else FRecv (unhex (String.sub o 1 (String.length o - 1))))
+          ops
+      in
+      let timeout = if tmo = "z" then N0 else n_of_int 1000000000 in
+      if kind = "raw" then
+        let outs = frag_run (fun b -> Some b) ovf timeout N0 { fs_queue = []; fs_timer = [] } ops in
+        String.concat "," (List.map show_raw outs)
+      else
+        let fb b = match from_buffer b with Ok f -> Some f | _ -> None in
+        let outs = frag_run fb ovf timeout N0 { fs_queue = []; fs_timer = [] } ops in
+        String.concat ","
+          (List.map
+             (function
+               | None -> "t"
+               | Some (Ok None) -> "-"
+               | Some (Ok (Some f)) ->
+                   Printf.sprintf "F:%d:%s:%s" (int_of_n f.f_sid)
+                     (match f.f_addr with None -> "none" | Some t -> show_target t)
+                     (hex f.f_body)
+               | Some (Err _) -> "ERR"
+               | Some (Panic _) -> raise Model_panic)
+             outs)
+  | _ -> "BAD-ARGS"
+
+let frag_make ovf args =
+  match args with
+  | [ mtu; next_id; payload ] -> (
+      match make_fragments ovf (n_of_int (int_of_string mtu)) (n_of_int (int_of_string next_id)) (unhex payload) with
+      | Ok (nid, frs) -> Printf.sprintf "%d %s" (int_of_n nid) (String.concat "," (List.map hex frs))
+      | Err _ -> "ERR"
+      | Panic _ -> raise Model_panic)
+  | _ -> "BAD-ARGS"
+
+let frag_rt ovf args =
+  match args with
+  | [ mtu; next_id; payload; perm ] -> (
+      match make_fragments ovf (n_of_int (int_of_string mtu)) (n_of_int (int_of_string next_id)) (unhex payload) with
+      | Ok (_, frs) ->
+          let arr = Array.of_list frs in
+          let k = Array.length arr in
+          let ops =
+            List.map (fun ix -> FRecv arr.(int_of_string ix mod (max k 1))) (split_on ',' perm)
+          in
+          let outs =
+            frag_run (fun b -> Some b) ovf (n_of_int 1000000000) N0 { fs_queue = []; fs_timer = [] } ops
+          in
+          Printf.sprintf "%d %s" k (String.concat "," (List.map show_raw outs))
+      | Err _ -> "ERR"
+      | Panic _ -> raise Model_panic)
   | _ -> "BAD-ARGS"
 
 (* ---- main ----------------------------------------------------------------------------- *)
